@@ -30,6 +30,7 @@ Definition upds3 (x : state * reply * list upd) : list upd := snd x.
 Definition state3 (x : state * reply * list upd) : state := fst (fst x).
 Definition desc_constant (d : option adesc) : option pyval :=
   match d with Some (DP _ _ pd) => pd_constant pd | _ => None end.
+Definition reply_eq_data (r : reply) (v : pyval) : bool := match r with RpData x => pv_same x v | _ => false end.
 Definition is_some {A} (o : option A) : bool := match o with Some _ => true | None => false end.
 Definition rerr_is (r : reply) (e : rerr) : bool :=
   match r, e with
@@ -41,76 +42,8 @@ Definition rerr_is (r : reply) (e : rerr) : bool :=
 Lemma built_state_of n : built n = true -> build n = Ok (state_of n).
 Proof. unfold built, state_of. destruct (build n); auto. discriminate. Qed.
 
-(* finding C06/constant-read-malformed: foo = Parameter('', FloatRange(), constant=2.5); "read m:_foo" raises TypeError *)
-Definition n_const : list mcfg := [mk_mod [mk_par s_foo dbl ExTrue None true (Some (PFloat two_half)) None]].
-
-Theorem refuted_constant_read :
-  exists n m w c,
-    built n = true /\ consistent (state_of n) /\
-    opt_eqb pv_same (desc_constant (described (state_of n) m w)) (Some c) = true /\
-    do_read (state_of n) m w <> RpData (with_qualifiers c) /\ rerr_is (do_read (state_of n) m w) (RExc EType) = true.
-Proof.
-  exists n_const, s_m, s_ufoo, (PFloat two_half).
-  assert (R : do_read (state_of n_const) s_m s_ufoo = RpErr (RExc EType)) by (vm_compute; reflexivity).
-  split; [vm_compute; reflexivity|]. split.
-  { apply (build_consistent n_const); [apply built_state_of; vm_compute; reflexivity| |].
-    - repeat constructor. simpl. tauto.
-    - apply no_cfg_export_settled. intros mc a [<-|[]] [<-|[]]. reflexivity. }
-  split; [vm_compute; reflexivity|]. split; [rewrite R; discriminate|rewrite R; reflexivity].
-Qed.
-
-(* finding C06/cfg-export-override, (a): foo = Param(export=False) in the configuration hides foo from the report,
-   but "read m:_foo", "change m:_foo" and "activate m:_foo" are still served; the update carries no wire name *)
-Definition n_hidden : list mcfg :=
-  [mk_mod [mk_par s_foo dbl ExTrue (Some ExFalse) false None (Some (PFloat two_half))]].
-
-Theorem refuted_undescribed_but_served :
-  exists n m w,
-    built n = true /\ described (state_of n) m w = None /\
-    is_data (do_read (state_of n) m w) = true /\
-    is_data (reply3 (do_change E0 (state_of n) m w (PInt 7))) = true /\
-    reply3 (do_activate (state_of n) (Some (m, Some w))) = RpActive /\
-    s_subs (state3 (do_activate (state_of n) (Some (m, Some w)))) = [(m, Some w)] /\
-    map (fun u => (u_mod u, u_wire u)) (upds3 (do_activate (state_of n) (Some (m, Some w)))) = [(m, None)].
-Proof.
-  exists n_hidden, s_m, s_ufoo. repeat split; vm_compute; reflexivity.
-Qed.
-
-(* (b): bar = Param(export='baz'): described as "baz", but only reachable under the old name "_bar" *)
-Definition n_renamed : list mcfg :=
-  [mk_mod [mk_par s_bar dbl ExTrue (Some (ExName s_baz)) false None (Some (PFloat two_half))]].
-
-Theorem refuted_described_but_unreachable :
-  exists n m w,
-    built n = true /\ is_some (described (state_of n) m w) = true /\
-    do_read (state_of n) m w = RpErr RNoPar /\
-    (forall j, reply3 (do_change E0 (state_of n) m w j) = RpErr RNoPar).
-Proof.
-  exists n_renamed, s_m, s_baz. split; [vm_compute; reflexivity|]. split; [vm_compute; reflexivity|].
-  split; [vm_compute; reflexivity|]. intros j. vm_compute. reflexivity.
-Qed.
-
-(* finding C06/wire-name-collision: foo (export=True -> "_foo") and bar (export='_foo') in one module: two exported
-   accessibles, one entry in the report, two updates of different kinds under the same specifier on activation *)
-Definition n_collision : list mcfg :=
-  [mk_mod [mk_par s_foo dbl ExTrue None false None (Some (PFloat two_half));
-           mk_par s_bar (TString 0 8 false) (ExName s_ufoo) None false None (Some (PStr [116; 120; 116]%N))]].
-Definition body_kind (b : ubody) : nat :=
-  match b with UV (PFloat _) => 1 | UV (PStr _) => 2 | UV _ => 3 | UE => 4 | UX => 5 end.
-
-Theorem refuted_collision :
-  exists n,
-    built n = true /\
-    map (fun e => (fst e, length (md_accs (snd e)))) (describe (state_of n)) = [(s_m, 1%nat)] /\
-    map (fun mc => length (filter (fun a => is_some (wire_of true a)) (mc_accs mc))) n = [2%nat] /\
-    map (fun u => (u_mod u, u_wire u, body_kind (u_body u))) (upds3 (do_activate (state_of n) (Some (s_m, None)))) =
-      [(s_m, Some s_ufoo, 1%nat); (s_m, Some s_ufoo, 2%nat)].
-Proof.
-  exists n_collision. repeat split; vm_compute; reflexivity.
-Qed.
-
-(* observation (not listed separately: every read of a constant is already malformed): a ScaledInteger(0.1) constant 2.5
-   given in the class is exported once per Parameter.finish call and described as 2500 instead of 25 *)
+(* observation: a ScaledInteger(0.1) constant 2.5 given in the class is exported once per Parameter.finish call and described
+   (and, since 0f999c0, read) as 2500 instead of 25 -- description and behaviour agree, so this is not a violation of C06 *)
 Definition sc01 : dtype := TScaled (fmk 3602879701896397 (-55)) fzero (of_Z 100).
 Definition n_scaled : list mcfg := [mk_mod [mk_par s_foo sc01 ExTrue None true (Some (PFloat two_half)) None]].
 Theorem observed_scaled_constant_reexported :
@@ -118,8 +51,18 @@ Theorem observed_scaled_constant_reexported :
   finish_const sc01 (PFloat two_half) = Ok (PInt 25).
 Proof. repeat split; vm_compute; reflexivity. Qed.
 
-(* finding C06/nan-constant-not-strict-json: FloatRange()(nan) is nan, and it is put into the report as it is *)
+(* finding C06/nan-constant-not-strict-json (open): FloatRange()(nan) is nan, and it is put into the report as it is *)
 Definition n_nan : list mcfg := [mk_mod [mk_par s_foo dbl ExTrue None true (Some (PFloat fnan)) None]].
 Theorem refuted_nan_constant_described :
   built n_nan = true /\ desc_constant (described (state_of n_nan) s_m s_ufoo) = Some (PFloat fnan).
 Proof. repeat split; vm_compute; reflexivity. Qed.
+
+(* the configurations that witnessed the repaired defects (kept as regression examples) *)
+Definition n_const : list mcfg := [mk_mod [mk_par s_foo dbl ExTrue None true (Some (PFloat two_half)) None]].
+Definition n_hidden : list mcfg :=
+  [mk_mod [mk_par s_foo dbl ExTrue (Some ExFalse) false None (Some (PFloat two_half))]].
+Definition n_renamed : list mcfg :=
+  [mk_mod [mk_par s_bar dbl ExTrue (Some (ExName s_baz)) false None (Some (PFloat two_half))]].
+Definition n_collision : list mcfg :=
+  [mk_mod [mk_par s_foo dbl ExTrue None false None (Some (PFloat two_half));
+           mk_par s_bar (TString 0 8 false) (ExName s_ufoo) None false None (Some (PStr [116; 120; 116]%N))]].
